@@ -82,6 +82,13 @@ TEXT_KINDS = ["syntax-line", "bad-directive", "subst-undefined",
 # ---------------------------------------------------------------------------
 # generation
 
+NEST_TYPES = ('  <sectiontype name="zznest">\n'
+              '    <key name="nk" datatype="zcsim.simdt.nested"/>\n'
+              '  </sectiontype>\n'
+              '  <multisection type="zznest" name="*" attribute="zznests"/>\n')
+NEST_INNER = "%import zcsim_p0\n<pt0 zzinner/>\n"
+
+
 def _override_specs(rng, ir, uni, n):
     from zcsim.props import c07
     pool = c07._override_pool(rng, ir, uni)
@@ -385,9 +392,23 @@ def _generate(rng, tier, index):
         if rng.random() < 0.3:
             history.append({"op": "rewrite-src", "url": url, "edition": 0})
             history.append(again())
-    return {"prop": ID, "schema_xml": sc["schema_xml"],
+    schema_xml = sc["schema_xml"]
+    nested = False
+    top0 = texts[0]["res"][texts[0]["top"]]
+    if "zcsim_p0" in sc["packages"] and "pt0" in ctypes \
+            and any(ln.strip() == "%import zcsim_p0" for ln in top0) \
+            and "</schema>" in schema_xml and rng.random() < 0.4:
+        # a datatype of the application loads another text (which imports
+        # the same component) against the SAME schema object while this
+        # load is between two of its lines; a section of an imported type
+        # follows.  Loads against one schema object do not influence each
+        # other, finished or in progress
+        schema_xml = schema_xml.replace("</schema>", NEST_TYPES + "</schema>")
+        top0.extend(["<zznest x>", "nk go", "</zznest>", "<pt0 zzafter/>"])
+        nested = True
+    return {"prop": ID, "schema_xml": schema_xml,
             "packages": sc["packages"], "pkgfiles": sc["pkgfiles"],
-            "src_versions": srcv,
+            "src_versions": srcv, "nested": nested,
             "ctypes": ctypes, "texts": texts, "ops": history}
 
 
@@ -473,10 +494,23 @@ def _resolve_fault(f, counts):
     return [{"seam": seam, "at": int(f["frac"] * n), "kind": f["kind"]}]
 
 
-def _load(w, schema, plan, op, faults, name):
+def _load(w, schema, plan, op, faults, name, inner_schema=None):
     store, top = _store_for(plan, op)
     store.update(_edition(w))
     w.store = store
+    if plan.get("nested"):
+        isch = inner_schema if inner_schema is not None else schema
+
+        def hook(_value):
+            w.nested_hook = None
+            try:
+                ZConfig.loadConfigFile(isch, io.StringIO(NEST_INNER))
+            except Exception:
+                pass           # (the application carries on without it)
+            finally:
+                w.nested_hook = hook
+            w.probe("load-started-inside-a-load")
+        w.nested_hook = hook
     w.begin_op(name, faults)
     w.pkg_faults = dict(op.get("pkg_fault") or {})
     box = [None]
@@ -839,8 +873,14 @@ def execute(plan):
                                   "does not have the original description: "
                                   "%r" % (canon.digest_diff(
                                       digest0, fs["digest"])[:4],)), step)
+                fs2 = None
+                if plan.get("nested"):
+                    # (the reference: the inner load has a schema copy of
+                    # its own)
+                    fs2 = _fresh_schema(w, plan)
                 of, _c2, cf = _load(w, fs["schema"], plan, op, faults,
-                                    "fresh")
+                                    "fresh", fs2["schema"] if fs2 and
+                                    fs2["ok"] else None)
                 out["evaluations"] += 2
                 n_loads += 1
                 last_cfg = cfg
